@@ -9,6 +9,7 @@ import PC.Drv.Update
 import PC.Drv.Merge
 import PC.Drv.Load
 import PC.Drv.Plan
+import PC.Drv.Api
 /-! `pcdriver <component>`: reads protocol lines on stdin, prints `model ||| verdict` per line. -/
 open PC.Drv
 
@@ -28,6 +29,7 @@ def main (args : List String) : IO UInt32 := do
   | ["scale"] => loop PC.Drv.Replica.scaleStep stdin stdout {}; return 0
   | ["load"] => loop PC.Drv.Load.step stdin stdout (); return 0
   | ["plan"] => loop PC.Drv.Plan.step stdin stdout (); return 0
+  | ["api"] => loop PC.Drv.Api.step stdin stdout (); return 0
   | ["merge"] => loop PC.Drv.Merge.step stdin stdout (); return 0
   | ["update"] => loop PC.Drv.Update.step stdin stdout {}; return 0
   | _ => IO.eprintln "usage: pcdriver <component>"; return 2
